@@ -36,6 +36,22 @@ def main():
         pkg = re.search(r"^package (\w+)", demo, re.M).group(1)
         pkgdir = {"forwarder": ".", "forwarder_test": ".", "martian": "internal/martian", "martian_test": "internal/martian"}.get(pkg)
         if pkgdir is None:
+            base = pkg[:-5] if pkg.endswith("_test") else pkg
+            for d, _, files in os.walk(wt):
+                if "/.git" in d or "/e2e" in d:
+                    continue
+                for fn in files:
+                    if fn.endswith(".go") and not fn.endswith("_test.go"):
+                        try:
+                            head = open(os.path.join(d, fn)).read(4000)
+                        except OSError:
+                            continue
+                        if re.search(r"^package %s$" % re.escape(base), head, re.M):
+                            pkgdir = os.path.relpath(d, wt)
+                            break
+                if pkgdir:
+                    break
+        if pkgdir is None:
             m = re.search(r"[Cc]opy to:?\s+(\S+)", demo)
             pkgdir = os.path.dirname(m.group(1)) if m and m.group(1).endswith(".go") else (m.group(1).rstrip("/") if m else ".")
         tests = re.findall(r"^func (Test\w+)\(", demo, re.M)
